@@ -88,8 +88,8 @@ CLAIMED = {
    note=TRUST+"The pair table is taken from the property's anchors and confirmed by reading; shared helpers (util/fqdn.go, apple/time.go) count as one callee on both sides.",
    technique="sibling cross-check: normalised behaviour fingerprints over go/ssa compared under declared renamings", ref="§3 C20"),
  "C02": dict(level="other",
-   text="A complete ledger of panic obligations for packages zlint, lint, util and lints/*: every index/slice whose bounds check the Go compiler's prove pass cannot eliminate (go build -gcflags=-d=ssa/check_bce/debug=1 on /repo's current tree), every type assertion without comma-ok, every explicit panic and every integer division by a non-constant reachable from a lint method, every dereference of util.GetExtFromCert's nil-able result. Each obligation must be discharged by (a) precondition pairing decided from the lint's own CheckApplies decision table (comma-ok assertion to the same type / IsExtInCert or nil test for the same OID on every applicable path), (b) a dominating guard in the same function, (c) an automatic rule whose invariant is re-checked from source (pkix.Name []string fields are nil or non-empty: every store in zcrypto's x509 packages is append(old, element…); sort.Interface contract), or (d) a reviewed line of ledger/C02.txt, 22 of 48 of which carry a machine re-checked witness (dominating branch in the function or all its callers, CheckApplies implication). A new unproven site, a dropped `ok &&`, a dropped extension test or a removed guard is reported with its site. NOT decided: the truth of the reviewed parser post-conditions quoted in the ledger, panics inside library callees, resource exhaustion — so this is a structural necessary condition (no unreviewed panic site), not a proof of panic freedom.",
-   note=TRUST+"Also trusted: the Go compiler's prove pass as the bounds oracle (it only ever removes checks it has proven), and the 48 one-line arguments of ledger/C02.txt that were written by reading zlint and the zcrypto / x-crypto parsers. Keys are independent of local variable and parameter names and fall back to package+shape matching, so renames and helper extraction do not alarm.",
+   text="A complete ledger of panic obligations for packages zlint, lint, util and lints/*: every index/slice whose bounds check the Go compiler's prove pass cannot eliminate (go build -gcflags=-d=ssa/check_bce/debug=1 on /repo's current tree), every type assertion without comma-ok, every explicit panic and every integer division by a non-constant reachable from a lint method, every dereference of util.GetExtFromCert's nil-able result, every pointer result dereferenced or used as a method receiver although the call's error was discarded (`v, _ := f()`). Each obligation must be discharged by (a) precondition pairing decided from the lint's own CheckApplies decision table (comma-ok assertion to the same type / IsExtInCert or nil test for the same OID on every applicable path), (b) a dominating guard in the same function, (c) an automatic rule whose invariant is re-checked from source (pkix.Name []string fields are nil or non-empty: every store in zcrypto's x509 packages is append(old, element…); sort.Interface contract), or (d) a reviewed line of ledger/C02.txt, 23 of 49 of which carry a machine re-checked witness (dominating branch in the function or all its callers, CheckApplies implication, validator-parses-its-parameter + same-argument for a re-parse). A new unproven site, a dropped `ok &&`, a dropped extension test or a removed guard is reported with its site. NOT decided: the truth of the reviewed parser post-conditions quoted in the ledger, panics inside library callees, resource exhaustion — so this is a structural necessary condition (no unreviewed panic site), not a proof of panic freedom.",
+   note=TRUST+"Also trusted: the Go compiler's prove pass as the bounds oracle (it only ever removes checks it has proven), and the 49 one-line arguments of ledger/C02.txt that were written by reading zlint and the zcrypto / x-crypto parsers. Keys are independent of local variable and parameter names and fall back to package+shape matching, so renames and helper extraction do not alarm.",
    technique="panic-obligation ledger: compiler bounds-check-elimination report + go/ssa census of assertions/panics/divisions/nil-able dereferences, discharged by CheckApplies decision-table pairing, dominance guards and a reviewed, witness-carrying ledger", ref="§3 C02"),
 }
 
